@@ -19,7 +19,7 @@ Require Import C11.Model C11.ProofsRefine C11.ProofsAny C11.ProofsExact C11.Proo
 Set Implicit Arguments.
 Unset Strict Implicit.
 Unset Printing Implicit Defensive.
-Import GRing.Theory Num.Theory.
+Import Order.Theory GRing.Theory Num.Theory.
 
 Section AnyArithmetic.
 Variable F : Type.
@@ -199,6 +199,50 @@ Theorem C11_minres_true_residual Q C n (mm : cols R -> cols R) (value : option R
 Proof.
 move=> he hl hq hj hi /=; split=> //; first exact: (minres_true_residual value shifts he hl hq hj rhs k hi).
 by rewrite /pb_next (step_sp1 _ _ _ _ _ _ _ hq hj) (step_cp1 _ _ _ _ _ _ _ hq hj).
+Qed.
+
+(* the same about the tensor minres RETURNS (stopping rule, zero mask and un-normalisation included): for a column
+   that is not a zero column, with k = o_iters = the number of loop bodies executed (k <= max_iter + 2),
+       b - (value*K + s I) x_returned = ||b|| * scale_prev_k * pbar_k                                          *)
+Theorem C11_minres_output_residual (S : mr_settings R) (g : mr_args R) (M : nat -> nat -> nat -> R) q j i :
+  g_pre g = None -> 0 < g_eps g -> 0 < s_zero_thr S ->
+  (forall X j i, (j < size (g_rhs g))%N -> (i < g_n g)%N ->
+     cg2 AR (g_mm g X) j i = \sum_(l < g_n g) M j i l * cg2 AR X j l) ->
+  (q < shifts_Q g)%N -> (j < size (g_rhs g))%N -> (i < g_n g)%N -> ~~ rhs_col_is_zero AR S g j ->
+  let u := mr_prepare AR S g in
+  let o := minres AR S g in
+  let k := o_iters o in
+  let sh := shifts_tab AR g in
+  let v := if g_value g is Some a then a else 1 in
+  let x l := xget AR (o_sol o) q j l in
+  let st := st_iter AR (shifts_Q g) (size (g_rhs g)) (g_n g) (g_mm g) (fun X => X) (g_value g) sh (g_eps g) k
+              (st_init AR (shifts_Q g) (size (g_rhs g)) (g_n g) (fun X => X) (u_rhs u)) in
+  (k <= u_iters u)%N /\
+  cg2 AR (g_rhs g) j i - ((\sum_(l < g_n g) M j i l * x l) * v + qget AR sh q j * x i)
+  = sget AR (u_rhs_norm u) j
+    * (qget AR (scp st) q j
+       * pbar (shifts_Q g) (size (g_rhs g)) (g_n g) (g_mm g) (g_value g) sh (g_eps g) q j (u_rhs u) k i).
+Proof. move=> np he ht hl hq hj hi hnz; exact: (minres_output_residual np he ht hl hq hj hi hnz). Qed.
+
+(* the hypotheses of C11_minres_scaling and C11_minres_output_residual are satisfiable: the 1 x 1 system
+   1 * x = 1 with the identity closure, threshold 1, eps 1, scaling factor 2 *)
+Example C11_exact_hypotheses_satisfiable :
+  let S := MkSettings 1000 (1 : R) 1 in
+  let g := MkArgs (fun X : cols R => X) None 1 false [:: [:: (1 : R)]] 1 None None None in
+  let M := fun (_ i l : nat) => if i == l then (1 : R) else 0 in
+  let c := fun _ : nat => (2 : R) in
+  [/\ g_pre g = None, 0 < g_eps g, 0 < s_zero_thr S,
+      (forall X j i, (j < size (g_rhs g))%N -> (i < g_n g)%N ->
+         cg2 AR (g_mm g X) j i = \sum_(l < g_n g) M j i l * cg2 AR X j l)
+    & forall j, (j < size (g_rhs g))%N ->
+        [/\ 0 < c j, ~~ rhs_col_is_zero AR S g j & ~~ rhs_col_is_zero AR S (scale_rhs c g) j]].
+Proof.
+split; rewrite ?ltr01 //.
+- by move=> X [|//] [|//] _ _; rewrite big_ord1 /= mul1r.
+- move=> [|//] _; split; first by rewrite ltr0n.
+  + by rewrite /rhs_col_is_zero /= /norm2 /dot /= /vget /= mul1r add0r sqrtr1 ltxx.
+  + rewrite /rhs_col_is_zero /= /norm2 /dot /= /vget /= /cg2 /vget /= mulr1 add0r -expr2 sqrtr_sqr.
+    by rewrite ger0_norm ?ler0n // -leNgt ler1n.
 Qed.
 
 End ExactArithmetic.
